@@ -20,7 +20,7 @@ Not decided: that the group arithmetic behind ecdsa_key_gen / ecdsa_dh computes 
 its structure), symmetry of Diffie-Hellman as a numerical fact, correctness of bn_mod_sqrt.
 """
 import itertools
-from rules import driver, core, absint, r_mpt, r_stride, r_err
+from rules import driver, core, absint, r_mpt, r_stride, r_err, r_poly
 from rules.core import key, walk, strip_casts, const_val
 from props import common, fixtures
 
@@ -483,6 +483,89 @@ def parity_rule(rep, u):
     return n
 
 
+# ------------------------------------------------------------------ R-SPEC: curve equation and coordinate ranges
+
+def _curve_rhs(am3):
+    P = r_poly.Poly
+    x = P.sym("point->x")
+    a = P.const(-3) if am3 else P.sym("curve->a")
+    return x ** 3 + a * x + P.sym("curve->b")
+
+
+def affine_rule(rep, u):
+    """ec_point_check_affine: every accepting path has established  p > x,  p > y  and  y^2 == x^3 + a*x + b
+    (a = -3 on the EC_CURVE_FLAG_A_M3 arm).  The comparisons are enumerated over all their outcomes; the compared
+    values are polynomials obtained by interpreting the bignum calls of the path."""
+    fn = u.fn("ec_point_check_affine")
+    if fn is None:
+        raise driver.AnalysisBroken("anchor ec_point_check_affine vanished")
+    rep.functions.add(fn.name)
+    pe = r_stride.PE(u, call_default=status_defaults(u))
+    keys = sorted({key(x) for _, _, x, _ in fn.nodes() if x.get("k") == "call" and x.get("fn") == "bn_cmp"})
+    P = r_poly.Poly
+    n = 0
+    for am3 in (0, 1):
+        want_eq = P.sym("point->y") ** 2 - _curve_rhs(am3)
+        accepted = 0
+        problems = []
+        undec = None
+        for vals in itertools.product((-1, 0, 1), repeat=len(keys)):
+            bind = {"point": 0x2000, "curve": 0x1000, "curve->flags": am3}
+            bind.update(dict(zip(keys, vals)))
+            ev, ret = pe.trace(fn, bind)
+            if isinstance(ret, str):
+                undec = ret
+                continue
+            if ret != 0:
+                continue
+            accepted += 1
+            st, cm = r_poly.interpret(ev, lambda a, b: const_val(a))
+            facts = set()
+            for call, pa, pb in cm:
+                v = bind.get(key(call))
+                for (l, r, val) in ((pa, pb, v), (pb, pa, -v if v is not None else None)):
+                    if l == P.sym("curve->p") and val == 1:
+                        if r == P.sym("point->x"):
+                            facts.add("p>x")
+                        if r == P.sym("point->y"):
+                            facts.add("p>y")
+                if v == 0 and pb is not None and ((pa - pb) == want_eq or (pb - pa) == want_eq):
+                    facts.add("eq")
+            miss = [f for f in ("p>x", "p>y", "eq") if f not in facts]
+            if miss:
+                problems.append("accepting path with comparison results %s lacks %s" % (dict(zip(keys, vals)), ", ".join(
+                    {"p>x": "x < p", "p>y": "y < p", "eq": "y^2 == x^3 + a*x + b"}[m] for m in miss)))
+        n += 1
+        inst = "affine-check[a_m3=%d]" % am3
+        desc = "every accepting path of ec_point_check_affine establishes x < p, y < p and the curve equation"
+        if undec:
+            rep.undecided("R-SPEC", fn, inst, desc, undec)
+        elif not accepted:
+            rep.violated("R-SPEC", fn, inst, desc, "no accepting path")
+        elif problems:
+            rep.violated("R-SPEC", fn, inst, desc, problems[0])
+        else:
+            rep.proved("R-SPEC", fn, inst, desc, "%d outcome combinations of %d comparisons; %d accepting" % (3 ** len(keys), len(keys), accepted))
+    # the square root in ec_point_restore_y_by_x is taken of the right-hand side of the curve equation
+    fr = u.fn("ec_point_restore_y_by_x")
+    for am3 in (0, 1):
+        bind = {"y_is_odd": 0, "bn_is_odd(&(tm1))": 0, "point": 0x2000, "curve": 0x1000, "curve->flags": am3}
+        ev, ret = pe.trace(fr, bind)
+        inst = "sqrt-argument[a_m3=%d]" % am3
+        desc = "ec_point_restore_y_by_x takes the square root of x^3 + a*x + b"
+        if isinstance(ret, str):
+            rep.undecided("R-SPEC", fr, inst, desc, ret)
+            continue
+        n += 1
+        st, cm = r_poly.interpret(ev, lambda a, b: const_val(a))
+        arg = [pa for call, pa, pb in cm if (call.get("fn") or "").startswith("bn_mod_sqrt")]
+        if arg and arg[0] == _curve_rhs(am3):
+            rep.proved("R-SPEC", fr, inst, desc, "argument = %s" % arg[0])
+        else:
+            rep.violated("R-SPEC", fr, inst, desc, "argument = %s" % (arg[0] if arg else "no bn_mod_sqrt call on the path"))
+    return n
+
+
 # ------------------------------------------------------------------ R-SIB
 
 def _norm(s, order):
@@ -541,7 +624,7 @@ def units(tier):
 def run(rep, tier):
     us = driver.load_units(units(tier))
     rep.use_units(us)
-    nb = nc = nv = np_ = ns = 0
+    nb = nc = nv = np_ = ns = nspec = 0
     for lab, u in us.items():
         fns = byte_fns(u)
         rep.floor("byte-string entry points in %s" % lab, len(fns), 16)
@@ -550,12 +633,14 @@ def run(rep, tier):
         for order in ("be", "le"):
             nc += codec_rule(rep, u, order)
         np_ += parity_rule(rep, u)
+        nspec += affine_rule(rep, u)
         if lab != "ecdsa:test":      # the test configuration defines EC_DISABLE_PUB_KEY_CHK
             nv += validation_rule(rep, u)
     rep.floor("bounded reads/writes decided", nb, 60)
     rep.floor("codec layouts and importer arms evaluated", nc, 200)
     rep.floor("validation obligations", nv, 10)
     rep.floor("parity cases", np_, 8)
+    rep.floor("curve-equation obligations", nspec, 8)
     rep.floor("sibling pairs", ns, 16)
     return driver.finish(
         rep, "other",
